@@ -1713,6 +1713,10 @@ package gmars
 //@ pure keptArr(a int, a0 int) = a == a0 || fresh(a)
 //@ pure forSame(f *forExpander) = f.tokens == old(f.tokens) && f.lex == old(f.lex) && keptArr(arr(f.labelBuf), old(arr(f.labelBuf))) && keptArr(arr(f.exprBuf), old(arr(f.exprBuf)))
 //@      && keptArr(arr(f.forContent), old(arr(f.forContent))) && (keptArr(arr(f.forLineLabelsToWrite), old(arr(f.forLineLabelsToWrite))) || arr(f.forLineLabelsToWrite) == 0)
+// termination of the expander's driver (C05): every state stops or hands over to a state with a smaller measure
+//@ pure forW(st int) = ite(st == forLine || st == forFor, 5, ite(st == forConsumeLabels || st == forInnerLine, 4, ite(st == forWriteLabelsEmitConsumeLine || st == forConsumeEmitLine || st == forInnerLabels, 3,
+//@      ite(st == forInnerEmitLabels || st == forRof, 2, ite(st == forInnerEmitConsumeLine, 1, 0)))))
+//@ pure forMu(f *forExpander, st int) = 8 * forLeft(f) + forW(st)
 //@ pure forProto(f *forExpander, res int, n0 int) = (forOpen(f, n0) || (res == 0 && forEnded(f, n0))) && (res != 0 ==> forSt(res) && forPre(f, res))
 // progress measure of the expander's input: it decreases with every call of next() made before the terminal token
 //@ pure forLeft(f *forExpander) = f.lex.left + ite(f.atEOF, 0, 1)
@@ -1732,6 +1736,7 @@ package gmars
 //@   modifies f.atEOF, f.nextToken, chan f.tokens, ghost f.lex.*
 //@   ensures forOK(f)
 //@   ensures [C05] result == nextState && sent(f.tokens) == old(sent(f.tokens)) + 1 && lastSent(f.tokens) == old(f.nextToken)
+//@   ensures [C05] forLeft(f) <= old(forLeft(f)) && (!old(f.atEOF) ==> forLeft(f) < old(forLeft(f)))
 // the driver: whatever the states did, nothing is sent after a terminal token (F15: the unconditional extra EOF
 // that used to follow the state machine was such a send whenever a state had already ended the stream)
 //@ func (*forExpander).run
@@ -1743,36 +1748,42 @@ package gmars
 //@     invariant forOK(f) && forSame(f)
 //@     invariant [C05] state != 0 ==> forOpen(f, old(sent(f.tokens))) && forSt(state) && forPre(f, state)
 //@     invariant [C05] state == 0 ==> forOpen(f, old(sent(f.tokens))) || forEnded(f, old(sent(f.tokens)))
+//@     decreases [C05] ite(state == 0, 0, 1 + forMu(f, state))
 //@ func forLine
 //@   panics [C05]
 //@   requires forOK(f)
 //@   modifies f.*, f.labelBuf[*], f.exprBuf[*], f.forContent[*], chan f.tokens, ghost f.lex.*
 //@   ensures forOK(f)
 //@   ensures [C05] forProto(f, result, old(sent(f.tokens))) && forSame(f)
+//@   ensures [C05] result != 0 ==> forMu(f, result) < old(forMu(f, forLine))
 //@ func forConsumeLabels
 //@   panics [C05]
 //@   requires forOK(f)
 //@   modifies f.*, f.labelBuf[*], f.exprBuf[*], f.forContent[*], chan f.tokens, ghost f.lex.*
 //@   ensures forOK(f)
 //@   ensures [C05] forProto(f, result, old(sent(f.tokens))) && forSame(f)
+//@   ensures [C05] result != 0 ==> forMu(f, result) < old(forMu(f, forConsumeLabels))
 //@ func forConsumeEmitLine
 //@   panics [C05]
 //@   requires forOK(f)
 //@   modifies f.*, f.labelBuf[*], f.exprBuf[*], f.forContent[*], chan f.tokens, ghost f.lex.*
 //@   ensures forOK(f)
 //@   ensures [C05] forProto(f, result, old(sent(f.tokens))) && forSame(f)
+//@   ensures [C05] result != 0 ==> forMu(f, result) < old(forMu(f, forConsumeEmitLine))
 //@ func forConsumeExpression
 //@   panics [C05]
 //@   requires forOK(f)
 //@   modifies f.*, f.labelBuf[*], f.exprBuf[*], f.forContent[*], chan f.tokens, ghost f.lex.*
 //@   ensures forOK(f)
 //@   ensures [C05] forProto(f, result, old(sent(f.tokens))) && forSame(f)
+//@   ensures [C05] result != 0 ==> forMu(f, result) < old(forMu(f, forConsumeExpression))
 //@ func forInnerLine
 //@   panics [C05][C08]
 //@   requires forOK(f)
 //@   modifies f.*, f.labelBuf[*], f.exprBuf[*], f.forContent[*], chan f.tokens, ghost f.lex.*
 //@   ensures forOK(f)
 //@   ensures [C05] forProto(f, result, old(sent(f.tokens))) && forSame(f)
+//@   ensures [C05] result != 0 ==> forMu(f, result) < old(forMu(f, forInnerLine))
 // the block header (counter, count, line labels) is not disturbed while the body is collected
 //@   ensures [C08] forBlockSame(f)
 //@ func forInnerEmitConsumeLine
@@ -1781,6 +1792,7 @@ package gmars
 //@   modifies f.*, f.labelBuf[*], f.exprBuf[*], f.forContent[*], chan f.tokens, ghost f.lex.*
 //@   ensures forOK(f)
 //@   ensures [C05] forProto(f, result, old(sent(f.tokens))) && forSame(f)
+//@   ensures [C05] result != 0 ==> forMu(f, result) < old(forMu(f, forInnerEmitConsumeLine))
 // the block header (counter, count, line labels) is not disturbed while the body is collected
 //@   ensures [C08] forBlockSame(f)
 //@ func forWriteLabelsEmitConsumeLine
@@ -1789,6 +1801,7 @@ package gmars
 //@   modifies f.*, f.labelBuf[*], f.exprBuf[*], f.forContent[*], chan f.tokens, ghost f.lex.*
 //@   ensures forOK(f)
 //@   ensures [C05] forProto(f, result, old(sent(f.tokens))) && forSame(f)
+//@   ensures [C05] result != 0 ==> forMu(f, result) < old(forMu(f, forWriteLabelsEmitConsumeLine))
 //@   loop 1
 //@     invariant forOK(f) && 0 - 1 <= rangeindex && rangeindex < len(f.labelBuf) && forOpen(f, old(sent(f.tokens))) && f.nextToken == old(f.nextToken)
 //@     decreases len(f.labelBuf) - rangeindex
@@ -1798,6 +1811,7 @@ package gmars
 //@   modifies f.*, f.labelBuf[*], f.exprBuf[*], f.forContent[*], chan f.tokens, ghost f.lex.*
 //@   ensures forOK(f)
 //@   ensures [C05] forProto(f, result, old(sent(f.tokens))) && forSame(f)
+//@   ensures [C05] result != 0 ==> forMu(f, result) < old(forMu(f, forInnerEmitLabels))
 // the block header (counter, count, line labels) is not disturbed while the body is collected
 //@   ensures [C08] forBlockSame(f)
 //@   loop 1
@@ -1809,6 +1823,7 @@ package gmars
 //@   modifies f.*, f.labelBuf[*], f.exprBuf[*], f.forContent[*], chan f.tokens, ghost f.lex.*
 //@   ensures forOK(f)
 //@   ensures [C05] forProto(f, result, old(sent(f.tokens))) && forSame(f)
+//@   ensures [C05] result != 0 ==> forMu(f, result) < old(forMu(f, forInnerLabels))
 // the block header (counter, count, line labels) is not disturbed while the body is collected
 //@   ensures [C08] forBlockSame(f)
 // nesting depth: a nested FOR opens one level, a ROF inside a nested block closes one, the ROF at depth 0 ends the block
@@ -1823,6 +1838,7 @@ package gmars
 //@   modifies f.atEOF, f.nextToken, chan f.tokens, ghost f.lex.*
 //@   ensures forOK(f)
 //@   ensures [C05] forProto(f, result, old(sent(f.tokens))) && forSame(f)
+//@   ensures [C05] result != 0 ==> forMu(f, result) < old(forMu(f, forEmitConsumeStream))
 //@   loop 1
 //@     invariant forOK(f) && forOpen(f, old(sent(f.tokens)))
 
@@ -1857,6 +1873,7 @@ package gmars
 //@   modifies f.*, f.labelBuf[*], f.exprBuf[*], f.forContent[*], chan f.tokens, ghost f.lex.*
 //@   ensures forOK(f)
 //@   ensures [C05] forProto(f, result, old(sent(f.tokens))) && forSame(f)
+//@   ensures [C05] result != 0 ==> forMu(f, result) < old(forMu(f, forFor))
 // the last label before FOR is the counter, the earlier ones are line labels, renamed __for_<counter>_<label>
 //@   ensures [C08] result != nil && len(old(f.labelBuf)) > 0 ==> f.forCountLabel == old(f.labelBuf[len(f.labelBuf) - 1]) && len(f.forLineLabels) == old(len(f.labelBuf)) - 1
 //@   ensures [C08] result != nil && len(old(f.labelBuf)) == 0 ==> f.forCountLabel == "" && len(f.forLineLabels) == 0
@@ -1883,8 +1900,9 @@ package gmars
 //@   modifies f.atEOF, f.nextToken, chan f.tokens, ghost f.lex.*
 //@   ensures forOK(f)
 //@   ensures [C05] forProto(f, result, old(sent(f.tokens))) && forSame(f)
+//@   ensures [C05] result != 0 ==> forMu(f, result) < old(forMu(f, forRof))
 //@   loop 1
-//@     invariant forOK(f) && sent(f.tokens) == old(sent(f.tokens))
+//@     invariant forOK(f) && sent(f.tokens) == old(sent(f.tokens)) && forLeft(f) <= old(forLeft(f))
 // skipping the rest of the ROF line consumes input on every iteration
 //@     decreases [C05] forLeft(f)
 //@   loop 2
